@@ -1,6 +1,7 @@
 (* Props_C14.v — C14: a wantlist handed to a connection is delivered whole or reported failed. Behaviour side (Client.v): a wantlist is handed over only from Ready, the state then names exactly that connection, at most one per peer per poll, and only a report from that connection (or the timeout / loss of the peer) changes it. Handler side (Handler.v) and the records-agree half (Net.v): see the end of the file.
    Statements restated verbatim from the proof files and closed by `exact`; nothing else is proved here. *)
 From BS Require Import Bytes Cid Proto Types Wantlist Client Client_proofs Client_proofs2 Client_proofs3 Client_proofs4 Tie_consts.
+From BS Require Import Tie_client.   (* tie lemmas: a source edit that changes what they extract breaks this file's closure *)
 Open Scope N_scope.
 
 Theorem C14_one_outstanding sdh ops ch p c f es :
@@ -281,3 +282,26 @@ Proof. exact (@Wire.C14_wire_delivery). Qed.
 
 Print Assumptions wire_receive_wantlist.
 Print Assumptions C14_wire_delivery.
+
+(* ---- unconditional form (package J): records equal after settle_phi + refresh_phi, no "ended quiet" hypotheses *)
+From BS Require Import Net Net_proofs Net_proofs2 Net_proofs5 Net_proofs6 Net_proofs7 Net_proofs9 Net_proofs10 Net_props Net_props2
+  Net_proofs23 Net_proofs24 Net_proofs27 Net_proofs28 Net_proofs32 Server Server_inv Net_props3.
+From Coq Require Import ZArith Lia.
+Open Scope N_scope.
+
+Theorem C14_records_equal_phi :
+  forall (Sz : N) (Hh : hash_fn),
+  32 <= Sz ->
+  forall (i j : N) (n : nat) (ops : list nop),
+  Forall (nop_good Sz Hh) ops ->
+  Forall (nop_wf Sz) ops ->
+  let s := fst (nrun Sz Hh (net_init n) ops) in
+  Net.connected s i j = true ->
+  let r1 := settle_phi Sz Hh s in
+  let r2 := refresh_phi Sz Hh (fst r1) in
+  (length (wl_i i (fst r1)) <= 1024)%nat ->
+  forall c : cid,
+  In c (wl_i i (fst r2)) <-> (exists st : sstate, server_of (fst r2) j = Some st /\ wantsP (s_wants st) i c).
+Proof. exact (@Net_props3.C14_records_equal_phi). Qed.
+
+Print Assumptions C14_records_equal_phi.
